@@ -231,7 +231,6 @@ func (n *networkTopology) replicaMap(tokenRing *tokenRing) tokenRingReplicas {
 
 		replicas := make([]*HostInfo, 0, totalRF)
 		for j := 0; j < len(tokens) && (len(replicas) < totalRF && !n.haveRF(replicasInDC)); j++ {
-			// TODO: ensure we dont add the same host twice
 			p := i + j
 			if p >= len(tokens) {
 				p -= len(tokens)
@@ -244,6 +243,10 @@ func (n *networkTopology) replicaMap(tokenRing *tokenRing) tokenRingReplicas {
 			rf := n.dcs[dc]
 			if rf == 0 {
 				// skip this DC, dont know about it or replication factor is zero
+				continue
+			} else if hostsContain(replicas, h) || hostsContain(skipped[dc], h) {
+				// with vnodes the walk meets the same host several times,
+				// it must be considered only once
 				continue
 			} else if replicasInDC[dc] >= rf {
 				if replicasInDC[dc] > rf {
@@ -315,4 +318,13 @@ func (n *networkTopology) replicaMap(tokenRing *tokenRing) tokenRingReplicas {
 	}
 
 	return replicaRing
+}
+
+func hostsContain(hosts []*HostInfo, host *HostInfo) bool {
+	for _, h := range hosts {
+		if h == host {
+			return true
+		}
+	}
+	return false
 }
